@@ -57,6 +57,10 @@ Matches(e) ==
                      /\ e.refilled => e.fresh_ok                 \* with a fresh batch in [0,1)
                      /\ Len(e.draws) >= op'.draws
   /\ e.ev = "query" => op'.out = e.out
+  \* sketches never share a batch of draws: the batches the slots started with, and the batch of every
+  \* sketch created by load(), are new (flags computed by the recorder over all batches of the history)
+  /\ Traces[tid].init_fresh
+  /\ e.ev = "saveload" => e.fresh_ok
 
 TStep ==
   /\ l <= Len(Events)
